@@ -15,7 +15,8 @@ for c in $checks; do
   echo "== check $c against seeded change for $id"
   ./check $c 2>&1 | grep -E "^\[check\] (OK|violation|INCONCLUSIVE)|^VIOLATION|KNOWN" | cut -c1-400 | head -6
   cp /tmp/.seed_ev_$c.json evidence/$c.json 2>/dev/null
-  for f in $(ls replays/$c 2>/dev/null | sort | comm -13 /tmp/.seed_before_$c -); do rm -f replays/$c/$f; done; rmdir replays/$c 2>/dev/null
+  mkdir -p work/seedreplays
+  for f in $(ls replays/$c 2>/dev/null | sort | comm -13 /tmp/.seed_before_$c -); do cp replays/$c/$f work/seedreplays/$id--$c--$f; rm -f replays/$c/$f; done; rmdir replays/$c 2>/dev/null
 done
 git -C /repo checkout -- .
 git -C /repo status --short
